@@ -18,11 +18,14 @@ INSTS = {10: ("range1i", 1, "i"), 11: ("range1f", 1, "f"), 20: ("box2i", 2, "i")
 OPN = {0: "contains", 1: "empty", 2: "extend(point)", 3: "extend(box)", 4: "clamp", 5: "size", 6: "center()", 7: "range_t()",
        8: "range_t(empty)", 9: "range_t().extend(box)", 10: "box*s", 11: "s*box", 12: "box+t", 13: "t+box", 14: "==", 15: "!=",
        20: "intersectionOf", 21: "disjoint", 22: "center(box)", 23: "touchingOrOverlapping", 24: "intersectionOf(a,b).empty()", 30: "area", 31: "volume",
-       40: "xfmBounds", 41: "xfmPoint", 50: "intersectRayBox"}
+       40: "xfmBounds", 41: "xfmPoint", 50: "intersectRayBox", 51: "intersectRayBox(default tRange)",
+       16: "operator<<", 17: "range_t(zero)", 18: "range_t(one)", 19: "range_t(const T&)", 25: "range_t(const T*)", 26: "operator T*",
+       27: "range_t(const range_t<other_t>&)"}
+HARNESS_ONLY = (16, 25, 26)      # iostream / pointers: outside the translated subset, judged by the definition oracle only
 SIG_DISJ = "C05-disjoint-inverted-empty-operand"
 SIG_RAY = "C05-intersectRayBox-empty-box"
 SIG_CTOP = "C05-center-int-bounds-above-INT_MAX-127"
-PROP_FILES = ("PropertiesOrd.v", "PropertiesId.v", "PropertiesBox.v", "PropertiesDef.v", "PropertiesCenter.v", "PropertiesRefuted.v", "PropertiesR.v")
+PROP_FILES = ("PropertiesCtor.v", "PropertiesOrd.v", "PropertiesId.v", "PropertiesBox.v", "PropertiesDef.v", "PropertiesCenter.v", "PropertiesRefuted.v", "PropertiesR.v")
 P124 = Fr(2) ** 124      # float boxes with huge extents: k * 2^124, |k| <= 15 (all sums/halves exact or overflowing)
 P24 = Fr(2) ** 24        # int boxes near INT_MAX: k * 2^24, |k| <= 127 (exactly convertible to float)
 FLT_MAX = Fr(2 ** 128 - 2 ** 104)
@@ -88,6 +91,13 @@ def oracle(op, code, a):
         if op == 30:
             return [sz[0] * sz[1]] if n == 2 else [2 * (sz[0] * sz[1] + sz[0] * sz[2] + sz[1] * sz[2])]
         if op == 31: return [sz[0] * sz[1] * sz[2]]
+    if op in (17, 18):
+        return [Fr(0)] * n + [Fr(0 if op == 17 else 1)] * n
+    if op == 19: return a[0:n] + a[0:n]
+    if op == 25: return a[0:2 * n]
+    if op == 26: return a[0:2 * n] + a[0:2 * n] + [True]
+    if op == 27:
+        return [trunc(x) for x in a[0:2 * n]] if isint else a[0:2 * n]
     if op in (7, 8):
         return ([IMAX] * n + [IMIN] * n) if isint else ([INF] * n + [-INF] * n)
     if op in (10, 11, 12, 13):
@@ -110,9 +120,9 @@ def oracle(op, code, a):
         lo, hi = a[12:15], a[15:18]
         cs = [img([(lo, hi)[(c >> 2) & 1][0], (lo, hi)[(c >> 1) & 1][1], (lo, hi)[c & 1][2]]) for c in range(8)]
         return [min(c[k] for c in cs) for k in range(3)] + [max(c[k] for c in cs) for k in range(3)]
-    if op == 50:
+    if op in (50, 51):
         org, d, lo, hi = parts(a, n, 4)
-        tl, tu = a[4 * n], a[4 * n + 1]
+        tl, tu = (a[4 * n], a[4 * n + 1]) if op == 50 else (Fr(0), INF)
         near, far = [tl], [tu]
         for i in range(n):
             r = (1 / d[i]) if d[i] != 0 else Fr(2) ** 126          # rcp_safe(0) = 1/FLT_MIN
@@ -163,6 +173,15 @@ def center_int_status(code, nums, il):
     return st, " ".join(req)
 
 
+def print_expected(code, nums):
+    """operator<< : "[" lower "," upper "]", a vec prints as "(x,y,...)", floats with the ostream default (%g, 6 digits)"""
+    name, n, ty = INSTS[code]
+    lo, hi = parts(nums, n, 2)
+    num = (lambda x: str(int(x))) if ty == "i" else (lambda x: "%g" % float(x))
+    vec = (lambda v: num(v[0])) if n == 1 else (lambda v: "(" + ",".join(num(x) for x in v) + ")")
+    return "[" + vec(lo) + "," + vec(hi) + "]"
+
+
 def show_obs(v):
     return " ".join(("1" if x else "0") if isinstance(x, bool) else tok(x) for x in v)
 
@@ -187,6 +206,211 @@ def ray_membership_ok(a, n, out):
         if near <= far: return False
     return True
 
+
+
+# ------------------------------------------------------------------------------------------ inventory closure
+ALL9 = (10, 11, 20, 21, 30, 31, 32, 40, 41)
+BOX7 = (20, 21, 30, 31, 32, 40, 41)
+D2, D3, D4 = (20, 21), (30, 31, 32), (40, 41)
+INV_NAMES = {'anyLessThan', 'min', 'max', 'reduce_min', 'reduce_max', 'madd', 'rcp_safe', 'rcp_safe_t', 'rcp', 'xfmBounds', 'xfmPoint', 'area', 'volume',
+             'center', 'disjoint', 'intersectionOf', 'touchingOrOverlapping', 'intersectRayBox'}
+
+
+def C(thm, ops, insts=ALL9):
+    return {"thm": thm, "ops": tuple(ops), "insts": tuple(insts)}
+
+
+def OOS(why):
+    return {"oos": why}
+
+
+# every declaration of range.h / box.h, plus every declaration named like something box code calls (any header of the TU):
+# (file, name, kind, signature as clang prints it) -> theorems + harness operations x instantiations, or an out-of-scope reason
+COVER = {
+    ("range.h", "anyLessThan", "template<typename,typename>", "bool (const TA &, const TB &)"): C("contains_iff isempty_iff", [0, 1], (10, 11)),
+    ("range.h", "operator!=", "template<typename>", "bool (const range_t<T> &, const range_t<T> &)"): C("eq_def", [15]),
+    ("range.h", "operator*", "template<typename>", "range_t<T> (const T &, const range_t<T> &)"): C("scale_def", [11]),
+    ("range.h", "operator*", "template<typename>", "range_t<T> (const range_t<T> &, const T &)"): C("scale_def", [10]),
+    ("range.h", "operator+", "template<typename>", "range_t<T> (const T &, const range_t<T> &)"): C("translate_def", [13]),
+    ("range.h", "operator+", "template<typename>", "range_t<T> (const range_t<T> &, const T &)"): C("translate_def", [12]),
+    ("range.h", "operator<<", "template<typename>", "std::ostream &(std::ostream &, const range_t<T> &)"):
+        C("(harness only: iostream is outside the translated subset) prints [lower,upper]", [16]),
+    ("range.h", "operator==", "template<typename>", "bool (const range_t<T> &, const range_t<T> &)"): C("eq_def", [14]),
+    ("range.h", "range_t::center", "method", "T () const"): C("center_def center_midpoint_R center_repaired_witnesses", [6]),
+    ("range.h", "range_t::clamp", "method", "T (const T &) const"): C("clamp_in clamp_id clamp_nearest", [4]),
+    ("range.h", "range_t::contains", "method", "bool (const T &) const"): C("contains_iff", [0]),
+    ("range.h", "range_t::empty", "method", "bool () const"): C("isempty_iff", [1]),
+    ("range.h", "range_t::extend", "method", "void (const T &)"): C("extend_point_least extend_point_smallest extend_empty_point_*", [2]),
+    ("range.h", "range_t::extend", "method", "void (const range_t<T> &)"): C("extend_box_least extend_box_smallest extend_empty_id_*", [3, 9]),
+    ("range.h", "range_t::fromString", "method", "range_t<T> (const std::string &, const range_t<T> &)"):
+        OOS("declared only, defined nowhere in the repository (no translation unit can call it); string parsing is not in the property"),
+    ("range.h", "range_t::lower", "field", "T"): C("field_order ctor_defs", [26]),
+    ("range.h", "range_t::upper", "field", "T"): C("field_order ctor_defs", [26]),
+    ("range.h", "range_t::operator const type-parameter-0-0 *", "conversion", "const T *() const"): C("field_order (pointers: harness only)", [26]),
+    ("range.h", "range_t::operator type-parameter-0-0 *", "conversion", "T *()"): C("field_order (pointers: harness only)", [26]),
+    ("range.h", "range_t::range_t<T>", "ctor", "void ()"): C("extend_empty_id_* ctor_defs", [7, 9]),
+    ("range.h", "range_t::range_t<T>", "ctor", "void (const T &)"): C("ctor_defs", [19]),
+    ("range.h", "range_t::range_t<T>", "ctor", "void (const T &, const T &)"): C("ctor_defs", [0, 1]),
+    ("range.h", "range_t::range_t<T>", "ctor", "void (const T *)"): C("(pointers: harness only) ctor_defs for the two-bound form", [25]),
+    ("range.h", "range_t::range_t<T>", "ctor", "void (const rkcommon::math::EmptyTy &)"): C("extend_empty_id_* ctor_defs", [8]),
+    ("range.h", "range_t::range_t<T>", "ctor", "void (const rkcommon::math::OneTy &)"): C("ctor_defs", [18]),
+    ("range.h", "range_t::range_t<T>", "ctor", "void (const rkcommon::math::ZeroTy &)"): C("ctor_defs", [17]),
+    ("range.h", "range_t::range_t<T>", "template<typename>", "void (const range_t<other_t> &)"): C("convert_defs", [27]),
+    ("range.h", "range_t::size", "method", "T () const"): C("size_def", [5]),
+    ("box.h", "area", "template<typename,bool>", "scalar_t (const box_t<scalar_t, 3, A> &)"): C("area3_def", [30], D3),
+    ("box.h", "area", "template<typename>", "scalar_t (const box_t<scalar_t, 2> &)"): C("area2_def", [30], D2),
+    ("box.h", "center", "template<typename,int,bool>", "vec_t<T, N, A> (const box_t<T, N, A> &)"): C("box_center_def", [22], BOX7),
+    ("box.h", "disjoint", "template<typename,int,bool>", "bool (const box_t<T, N, A> &, const box_t<T, N, A> &)"):
+        C("intersection_empty_iff_disjoint canonical_empty_disjoint disjoint_iff_not_touching", [21], BOX7),
+    ("box.h", "intersectRayBox", "template<typename,int>", "range_t<T> (const vec_t<T, N> &, const vec_t<T, N> &, const box_t<T, N> &, const range_t<T> &)"):
+        C("slab_exact_2 slab_exact_3", [50, 51], (21, 31)),
+    ("box.h", "intersectionOf", "template<typename,int,bool>", "box_t<T, N, A> (const box_t<T, N, A> &, const box_t<T, N, A> &)"):
+        C("intersection_spec intersection_empty_iff_disjoint", [20, 24], BOX7),
+    ("box.h", "touchingOrOverlapping", "template<typename,bool>", "bool (const box_t<scalar_t, 2, A> &, const box_t<scalar_t, 2, A> &)"):
+        C("disjoint_iff_not_touching", [23], D2),
+    ("box.h", "touchingOrOverlapping", "template<typename,bool>", "bool (const box_t<scalar_t, 3, A> &, const box_t<scalar_t, 3, A> &)"):
+        C("disjoint_iff_not_touching", [23], D3),
+    ("box.h", "volume", "template<typename,bool>", "scalar_t (const box_t<scalar_t, 3, A> &)"): C("volume_def", [31], D3),
+    ("AffineSpace.h", "xfmBounds", "template<typename,bool>", "const box_t<S, 3, A> (const AffineSpaceT<LinearSpace3<vec_t<S, 3, A>>> &, const box_t<S, 3, A> &)"):
+        C("xfmBounds_contains", [40], (31, 32)),
+    ("AffineSpace.h", "xfmPoint", "template<typename>", "const typename L::Vector (const AffineSpaceT<L> &, const typename L::Vector &)"):
+        C("xfmBounds_contains (callee)", [41], (31, 32)),
+    ("vec.h", "anyLessThan", "template<typename,bool,bool>", "bool (const vec_t<T, 3, A> &, const vec_t<T, 3, B> &)"): C("contains_iff isempty_iff", [0, 1, 21], D3),
+    ("vec.h", "anyLessThan", "template<typename>", "bool (const vec_t<T, 2> &, const vec_t<T, 2> &)"): C("contains_iff isempty_iff", [0, 1, 21], D2),
+    ("vec.h", "anyLessThan", "template<typename>", "bool (const vec_t<T, 4> &, const vec_t<T, 4> &)"): C("contains_iff isempty_iff", [0, 1, 21], D4),
+    ("vec.h", "madd", "template<typename,bool>", "vec_t<T, 3, A> (const vec_t<T, 3, A> &, const vec_t<T, 3, A> &, const vec_t<T, 3, A> &)"):
+        C("xfmBounds_contains (callee)", [40, 41], (31, 32)),
+    ("vec.h", "max", "template<typename,bool>", "vec_t<T, 3, A> (const vec_t<T, 3, A> &, const vec_t<T, 3, A> &)"): C("extend_* clamp_* intersection_spec", [2, 3, 4, 20], D3),
+    ("vec.h", "max", "template<typename>", "vec_t<T, 2> (const vec_t<T, 2> &, const vec_t<T, 2> &)"): C("extend_* clamp_* intersection_spec", [2, 3, 4, 20], D2),
+    ("vec.h", "max", "template<typename>", "vec_t<T, 4> (const vec_t<T, 4> &, const vec_t<T, 4> &)"): C("extend_* clamp_* intersection_spec", [2, 3, 4, 20], D4),
+    ("vec.h", "min", "template<typename,bool>", "vec_t<T, 3, A> (const vec_t<T, 3, A> &, const vec_t<T, 3, A> &)"): C("extend_* clamp_* intersection_spec", [2, 3, 4, 20], D3),
+    ("vec.h", "min", "template<typename>", "vec_t<T, 2> (const vec_t<T, 2> &, const vec_t<T, 2> &)"): C("extend_* clamp_* intersection_spec", [2, 3, 4, 20], D2),
+    ("vec.h", "min", "template<typename>", "vec_t<T, 4> (const vec_t<T, 4> &, const vec_t<T, 4> &)"): C("extend_* clamp_* intersection_spec", [2, 3, 4, 20], D4),
+    ("vec.h", "rcp_safe", "template<typename>", "vec_t<T, 2> (const vec_t<T, 2> &)"): C("slab_exact_2", [50, 51], (21,)),
+    ("vec.h", "rcp_safe", "template<typename>", "vec_t<T, 3> (const vec_t<T, 3> &)"): C("slab_exact_3", [50, 51], (31,)),
+    ("vec.h", "rcp_safe", "template<typename>", "vec_t<T, 3, true> (const vec_t<T, 3, 1> &)"):
+        OOS("not reachable from range/box code: intersectRayBox takes unaligned vec_t<T,N>; vec_t lifting is property C04"),
+    ("vec.h", "rcp_safe", "template<typename>", "vec_t<T, 4> (const vec_t<T, 4> &)"):
+        OOS("not reachable from range/box code: intersectRayBox needs vec_t<T,N+1>, so N <= 3; vec_t lifting is property C04"),
+    ("vec.h", "reduce_max", "template<typename,bool>", "T (const vec_t<T, 2, A> &)"): OOS("not reachable from range/box code (intersectRayBox reduces N+1 >= 3 components); C04"),
+    ("vec.h", "reduce_max", "template<typename,bool>", "T (const vec_t<T, 3, A> &)"): C("slab_exact_2", [50, 51], (21,)),
+    ("vec.h", "reduce_max", "template<typename,bool>", "T (const vec_t<T, 4, A> &)"): C("slab_exact_3", [50, 51], (31,)),
+    ("vec.h", "reduce_min", "template<typename,bool>", "T (const vec_t<T, 2, A> &)"): OOS("not reachable from range/box code (intersectRayBox reduces N+1 >= 3 components); C04"),
+    ("vec.h", "reduce_min", "template<typename,bool>", "T (const vec_t<T, 3, A> &)"): C("slab_exact_2", [50, 51], (21,)),
+    ("vec.h", "reduce_min", "template<typename,bool>", "T (const vec_t<T, 4, A> &)"): C("slab_exact_3", [50, 51], (31,)),
+    ("rkmath.h", "madd", "function", "float (const float, const float, const float)"): C("xfmBounds_contains (scalar leaf; C07 owns rkmath.h)", [40, 41], (31, 32)),
+    ("rkmath.h", "madd", "template<typename>", "typename std::enable_if<std::is_same<T, double>::value, T>::type (const T, const T, const T)"):
+        OOS("double overload: no range/box alias has double elements (C07's inventory covers it)"),
+    ("rkmath.h", "rcp", "function", "float (const float)"): C("slab_exact_* (read with RKCOMMON_NO_SIMD)", [50, 51], (21, 31)),
+    ("rkmath.h", "rcp", "function", "double (const double)"): OOS("double overload: no range/box alias has double elements (C07)"),
+    ("rkmath.h", "rcp_safe", "function", "float (const float)"): C("slab_exact_*", [50, 51], (21, 31)),
+    ("rkmath.h", "rcp_safe", "function", "double (const double)"): OOS("double overload: no range/box alias has double elements (C07)"),
+    ("rkmath.h", "rcp_safe_t", "template<typename>", "T (const T)"): C("slab_exact_*", [50, 51], (21, 31)),
+    ("AffineSpace.h", "rcp", "template<typename>", "AffineSpaceT<L> (const AffineSpaceT<L> &)"): OOS("same name, argument is an affine space (inverse map); C06"),
+    ("vec.h", "rcp", "template<typename>", "vec_t<T, 2> (const vec_t<T, 2> &)"): OOS("vector rcp is not called by range/box code (intersectRayBox calls rcp_safe); C04"),
+    ("vec.h", "rcp", "template<typename>", "vec_t<T, 3, true> (const vec_t<T, 3, 1> &)"): OOS("vector rcp is not called by range/box code (intersectRayBox calls rcp_safe); C04"),
+    ("vec.h", "rcp", "template<typename>", "vec_t<T, 3> (const vec_t<T, 3> &)"): OOS("vector rcp is not called by range/box code (intersectRayBox calls rcp_safe); C04"),
+    ("vec.h", "rcp", "template<typename>", "vec_t<T, 4> (const vec_t<T, 4> &)"): OOS("vector rcp is not called by range/box code (intersectRayBox calls rcp_safe); C04"),
+    ("LinearSpace.h", "rcp", "template<typename>", "LinearSpace2<T> (const LinearSpace2<T> &)"): OOS("same name, argument is a LinearSpace2: cannot be selected for a vec/scalar argument; C06"),
+    ("LinearSpace.h", "rcp", "template<typename>", "LinearSpace3<T> (const LinearSpace3<T> &)"): OOS("same name, argument is a LinearSpace3: cannot be selected for a vec/scalar argument; C06"),
+    ("LinearSpace.h", "xfmPoint", "template<typename>", "T (const LinearSpace3<T> &, const T &)"): OOS("same name, first argument is a LinearSpace3 (xfmBounds passes an AffineSpaceT); C06"),
+    ("Quaternion.h", "rcp", "template<typename>", "QuaternionT<T> (const QuaternionT<T> &)"): OOS("same name, argument is a quaternion; C06"),
+    ("Quaternion.h", "xfmPoint", "template<typename>", "typename QuaternionT<T>::Vector (const QuaternionT<T> &, const typename QuaternionT<T>::Vector &)"):
+        OOS("same name, first argument is a quaternion; C06"),
+}
+
+
+def inventory(ctx):
+    """clang AST of a TU including box.h + AffineSpace.h: every namespace-level function / operator / template and every member
+    (constructors, conversion operators, fields) that range.h and box.h declare, and every declaration in ANY header of the TU whose
+    name is one that range/box code calls (INV_NAMES).  Returns a set of (file, name, kind, signature) or None."""
+    import subprocess
+    import sys as _sys
+    sp = os.path.join(ctx.verif, "tools", "cxx2coq")
+    if sp not in _sys.path: _sys.path.insert(0, sp)
+    from astutil import load_docs
+    tu = os.path.join(ctx.build, "inv_tu.cpp")
+    open(tu, "w").write('#include "rkcommon/math/box.h"\n#include "rkcommon/math/AffineSpace.h"\n')
+    js = os.path.join(ctx.build, "inv.json")
+    cmd = ["clang++", "-std=c++11", "-I" + ctx.repo, "-I" + ctx.include_dir(), "-fsyntax-only", "-Xclang", "-ast-dump=json",
+           "-Xclang", "-ast-dump-filter=rkcommon::math", tu]
+    with open(js, "w") as f:
+        p = subprocess.run(cmd, stdout=f, stderr=subprocess.PIPE, universal_newlines=True, timeout=300)
+    if p.returncode != 0:
+        return None
+    inv = set()
+    KINDS = {'FunctionDecl': 'function', 'CXXMethodDecl': 'method', 'CXXConstructorDecl': 'ctor', 'CXXConversionDecl': 'conversion', 'CXXDestructorDecl': 'dtor'}
+
+    def fileof(n, last):
+        loc = n.get('loc', {})
+        for l in (loc, loc.get('expansionLoc', {}), loc.get('spellingLoc', {})):
+            if 'file' in l: return l['file']
+        return last
+
+    def wanted(base, name):
+        return base in ("range.h", "box.h") or name in INV_NAMES
+
+    def tparams(d):
+        out = []
+        for c in d.get('inner', []):
+            if c.get('kind') == 'TemplateTypeParmDecl': out.append('typename')
+            elif c.get('kind') == 'NonTypeTemplateParmDecl': out.append(c.get('type', {}).get('qualType', '?'))
+        return '<' + ','.join(out) + '>'
+
+    def visit(d, scope, lastf):
+        k = d.get('kind')
+        f = fileof(d, lastf[0]); lastf[0] = f
+        base = os.path.basename(f) if f else None
+        name = d.get('name')
+        if k == 'NamespaceDecl':
+            for c in d.get('inner', []) or []: visit(c, scope, lastf)
+        elif k == 'FunctionTemplateDecl':
+            fd = [c for c in d.get('inner', []) if c.get('kind') in KINDS]
+            if fd:
+                ff = fileof(fd[0], f); bb = os.path.basename(ff) if ff else base
+                if wanted(bb, name): inv.add((bb, scope + name, 'template' + tparams(d), fd[0].get('type', {}).get('qualType', '')))
+        elif k in KINDS:
+            if wanted(base, name):
+                inv.add((base, scope + name, 'implicit' if d.get('isImplicit') else KINDS[k], d.get('type', {}).get('qualType', '')))
+        elif k == 'ClassTemplateDecl':
+            for c in d.get('inner', []) or []:
+                if c.get('kind') == 'CXXRecordDecl' and c.get('completeDefinition') and os.path.basename(fileof(c, f) or '') == 'range.h':
+                    for m in c.get('inner', []) or []: visit(m, c.get('name') + '::', lastf)
+        elif k == 'FieldDecl' and base == 'range.h':
+            inv.add((base, scope + name, 'field', d.get('type', {}).get('qualType', '')))
+    for d in load_docs(js): visit(d, '', [None])
+    return inv
+
+
+def check_inventory(ctx, executed):
+    """fail closed: declaration not in COVER, COVER entry without declaration, covered (declaration x instantiation) without an executed case"""
+    inv = inventory(ctx)
+    if inv is None:
+        ctx.broken.append("inventory of range.h/box.h/AffineSpace.h/vec.h: clang failed on the inventory TU")
+        return
+    for key in sorted(inv - set(COVER)):
+        ctx.broken.append("inventory: %s declares %s [%s] : %s, which is not in props/C05/check.py COVER (new overload/member: no obligation, no case)" % key)
+    for key in sorted(set(COVER) - inv):
+        ctx.broken.append("inventory: COVER lists %s %s [%s] : %s, but the tree no longer declares it (removed or signature changed)" % key)
+    report = {}
+    for key, e in COVER.items():
+        label = "%s %s : %s" % (key[0], key[1], key[3])
+        if "oos" in e:
+            report[label] = {"out_of_scope": e["oos"]}
+            continue
+        per = {INSTS[c][0]: sum(executed.get((op, c), 0) for op in e["ops"]) for c in e["insts"]}
+        report[label] = {"theorems": e["thm"], "ops": [OPN[o] for o in e["ops"]], "executed": per}
+        if key in inv:
+            for nm, cnt in per.items():
+                if cnt == 0:
+                    ctx.broken.append("inventory: %s is covered by no executed case for %s in this run" % (label, nm))
+    msgs = [b for b in ctx.broken if b.startswith("inventory:")]
+    if msgs:
+        ctx.violation("inventory of range.h/box.h (and of what box code calls) no longer matches the coverage table: " + "; ".join(msgs[:4]),
+                      {"inventory_breaks": msgs, "required": "every declaration has an obligation and executed cases, or a stated out-of-scope reason"},
+                      found_input=False)
+    ctx.cov["inventory"] = report
+    ctx.cov["inventory_size"] = {"declarations": len(inv), "covered": sum(1 for e in COVER.values() if "oos" not in e), "out_of_scope": sum(1 for e in COVER.values() if "oos" in e)}
 
 # ------------------------------------------------------------------------------------------ generators
 class Gen:
@@ -277,7 +501,7 @@ def gen_cases(ctx):
     g = Gen(r)
     per = ctx.pick(60, 400)
     for code, (name, n, ty) in INSTS.items():
-        for _ in range(per):
+        for it in range(per):
             # order-only operations: fine-grained (1 ulp-like) perturbations and INT extremes allowed
             lo, hi, k = g.box(n, ty, fine=True, extremes=True)
             for _ in range(3):
@@ -302,13 +526,24 @@ def gen_cases(ctx):
             if n >= 2: g.add(22, code, lo + hi, "center:" + k)
             if code in (20, 21, 30, 31, 32): g.add(30, code, lo + hi, "area:" + k)
             if code in (30, 31, 32): g.add(31, code, lo + hi, "volume:" + k)
-            if code != 32:
-                s = [Fr(r.randint(-4, 4)) if ty == "i" else Fr(r.randint(-8, 8), 2) for _ in range(n)]
-                l2, h2, rel = g.second_box(lo, hi, n, ty)
-                for op in (10, 11, 12, 13): g.add(op, code, lo + hi + s, "arith")
-                g.add(14, code, lo + hi + ((lo + hi) if r.random() < 0.4 else (l2 + h2)), "eq")
-                g.add(15, code, lo + hi + ((lo + hi) if r.random() < 0.4 else (l2 + h2)), "eq")
-        g.add(7, code, [], "ctor"); g.add(8, code, [], "ctor")
+            s = [Fr(r.randint(-4, 4)) if ty == "i" else Fr(r.randint(-8, 8), 2) for _ in range(n)]
+            l2, h2, rel = g.second_box(lo, hi, n, ty)
+            for op in (10, 11, 12, 13): g.add(op, code, lo + hi + s, "arith")
+            g.add(14, code, lo + hi + ((lo + hi) if r.random() < 0.4 else (l2 + h2)), "eq")
+            g.add(15, code, lo + hi + ((lo + hi) if r.random() < 0.4 else (l2 + h2)), "eq")
+            if it % 4 == 0:
+                # remaining members: operator<<, single-value / pointer constructors, operator T*, converting constructor
+                g.add(16, code, lo + hi, "print:" + k)
+                g.add(19, code, lo, "ctor_single")
+                g.add(25, code, lo + hi, "ctor_pointer:" + k)
+                g.add(26, code, lo + hi, "conv_pointer:" + k)
+                if code == 32 or ty == "f":
+                    # source box: the sibling type (int values for a float target; box3f for box3fa)
+                    src = lo + hi if code == 32 else [Fr(r.randint(-12, 12)) for _x in range(2 * n)]
+                else:
+                    src = [Fr(r.randint(-49, 49), 4) for _x in range(2 * n)]          # float source, truncated toward zero
+                g.add(27, code, src, "ctor_convert")
+        g.add(7, code, [], "ctor"); g.add(8, code, [], "ctor"); g.add(17, code, [], "ctor"); g.add(18, code, [], "ctor")
     # boxes inverted in EXACTLY one axis k (for each k), the other axes strictly overlapping / degenerate / touching: empty() and
     # contains() by definition; and pairs separated in exactly one axis k (their intersectionOf is such a box): the chain
     # "intersection empty <=> disjoint() <=> !touchingOrOverlapping()" with each link judged by its definition
@@ -354,8 +589,8 @@ def gen_cases(ctx):
         lo, hi, k = g.box(3, "f", kind=r.choice(["normal", "normal", "degenerate", "point"]))
         code = r.choice((31, 32))
         g.add(40, code, m + lo + hi, "xfm:" + k)
-        p, _ = g.point_near(lo, hi, "f", False)
-        g.add(41, 31, m + p, "xfmPoint")
+        p, _t = g.point_near(lo, hi, "f", False)
+        g.add(41, r.choice((31, 32)), m + p, "xfmPoint")
     # exactly diagonal / axis-permuting / degenerate linear parts with negative entries (mirrors, 90 degree turns built from integers,
     # point reflection, zero rows or columns), box3f and box3fa
     def structured_map():
@@ -448,6 +683,7 @@ def gen_cases(ctx):
             elif r.random() < 0.5: org[i] = lo[i] + Fr(r.randint(0, int((hi[i] - lo[i]) * 2)), 2)
         tl, tu = r.choice([(Fr(0), INF), (Fr(0), Fr(r.randint(1, 12))), (Fr(-r.randint(1, 8)), Fr(r.randint(1, 8)))])
         g.add(50, code, org + d + lo + hi + [tl, tu], "ray:%s:%s" % (kind, k))
+        if tl == 0 and tu == INF: g.add(51, code, org + d + lo + hi, "ray_default_range:%s:%s" % (kind, k))
     # exhaustive: 2D int boxes with coordinates in {0..3}: all boxes x 16 points (contains/clamp/extend), box pairs (all in thorough)
     pts = [(x, y) for x in range(4) for y in range(4)]
     boxes = [(l, h) for l in pts for h in pts]
@@ -521,6 +757,7 @@ def run(ctx):
         mlines = [None] * len(lines)
     impls = [("templates (default build, SSE rcp)", exe), ("templates (-DRKCOMMON_NO_SIMD)", exe_ns)]
     inexact = {}
+    executed = {}      # (op, instantiation code) -> cases observed on the default build
     viol = {}          # clause -> (size, doc)
     corr_broken = []
     known = {}
@@ -537,10 +774,11 @@ def run(ctx):
         ctx.count(len(ilines))
         for i, (c, il, ml) in enumerate(zip(cases, ilines, mlines)):
             op, code, nums, kind = c
-            if ml is None: ml = il.replace(" ~", "")
+            if ml is None or op in HARNESS_ONLY: ml = il.replace(" ~", "")
+            if label == impls[0][0]: executed[(op, code)] = executed.get((op, code), 0) + 1
             flagged = il.endswith(" ~")
             if flagged: il = il[:-2]
-            if op == 50 and (flagged or "SSE" in label):
+            if op in (50, 51) and (flagged or "SSE" in label):
                 # not exactly representable (the SSE reciprocal of intersectRayBox): compared in fuzz mode instead
                 inexact[OPN[op]] = inexact.get(OPN[op], 0) + 1
                 continue
@@ -549,8 +787,8 @@ def run(ctx):
                 # of the case: the definition-based oracle below still decides; only the comparison with the exact model is skipped
                 inexact[OPN[op]] = inexact.get(OPN[op], 0) + 1
                 ml = il
-            exp = oracle(op, code, nums)
-            exps = show_obs(exp) if exp is not None else None
+            exp = oracle(op, code, nums) if op != 16 else None
+            exps = show_obs(exp) if exp is not None else (print_expected(code, nums) if op == 16 else None)
             ok_oracle = exps is None or exps == il
             if op in (6, 22) and INSTS[code][2] == "i" and exp is not None:
                 st, exps = center_int_status(code, nums, il)
@@ -559,8 +797,8 @@ def run(ctx):
                     # every failing component has its binary32 midpoint rounded to 2^31: out-of-range float -> int conversion
                     known.setdefault(SIG_CTOP, (lines[i] + "  (" + INSTS[code][0] + " " + toks(nums) + ")", il, exps))
                     continue
-            if ok_oracle and op == 50:
-                ok_oracle = ray_membership_ok(nums, INSTS[code][1], [untok(t) for t in il.split()])
+            if ok_oracle and op in (50, 51):
+                ok_oracle = ray_membership_ok(nums if op == 50 else nums + [Fr(0), INF], INSTS[code][1], [untok(t) for t in il.split()])
             if not ok_oracle:
                 n = INSTS[code][1]
                 if op == 21 and il == "0" and (o_empty(nums[0:n], nums[n:2 * n]) or o_empty(nums[2 * n:3 * n], nums[3 * n:4 * n])):
@@ -638,6 +876,7 @@ def run(ctx):
             ctx.violation("center() is not the midpoint within rounding", {"clause": "center_midpoint", "input": l[5:],
                           "replay": "build/C05/harness fuzzc %d %d" % (ctx.seed, nc)})
             break
+    check_inventory(ctx, executed)
     for sig, (l, obs, req) in known.items():
         ctx.violation("known deviation reproduced: " + sig, {"signature": sig, "input": l, "observed": obs, "required": req}, signature=sig)
     ctx.cov["op_histogram"] = g.hist
